@@ -679,6 +679,15 @@ void emitInitValue(Emitter &E, const Expr *Init, std::string &o, int depth = 0) 
       return;
     }
   }
+  if (const auto *DRE = dyn_cast<DeclRefExpr>(Init->IgnoreParenImpCasts())) {
+    // a table entry naming another constant (static const char* X = "..."): use that constant's initialiser
+    if (const auto *VD = dyn_cast<VarDecl>(DRE->getDecl())) {
+      if (depth < 4 && VD->hasInit() && !VD->getType()->isReferenceType() && VD->hasGlobalStorage()) {
+        emitInitValue(E, VD->getInit(), o, depth + 1);
+        return;
+      }
+    }
+  }
   if (const auto *CC = dyn_cast<CXXConstructExpr>(Init)) {
     if (CC->getNumArgs() >= 1) {
       emitInitValue(E, CC->getArg(0), o, depth + 1);
